@@ -55,6 +55,8 @@ type c21Item struct {
 	// (event SetForward) | "deny" | "proxy" (registered, runs) | "proxy-error"
 	// (registered, callback returns an error) | "rewrite" (event SetCommand to an
 	// unknown command) | "rewrite-forward" (SetCommand + SetForward)
+	// Outcome (chat): "" (untouched) | "rewrite" (PlayerChatEvent.SetMessage) |
+	// "deny" (PlayerChatEvent.SetAllowed(false))
 	Outcome string `json:"outcome,omitempty"`
 }
 
@@ -152,6 +154,9 @@ func c21Rewritten(i int) string { return fmt.Sprintf("r%d", i) }
 // c21Kicks: the proxy disconnects the player (forceKeyAuthentication guard) when a
 // command with argument signatures is consumed or rewritten.
 func c21Kicks(c c21Case, it c21Item) bool {
+	if c.ForceKey && it.Kind == "chat" && it.Outcome != "" {
+		return true // every generated chat is signed: a plugin may neither change nor cancel it
+	}
 	if !c.ForceKey || it.Kind != "scmd" || !it.ArgSigs {
 		return false
 	}
@@ -167,6 +172,12 @@ func c21Kicks(c c21Case, it c21Item) bool {
 func c21Class(it c21Item, protocol int) string {
 	switch it.Kind {
 	case "chat":
+		switch it.Outcome {
+		case "rewrite":
+			return "rewritten-chat"
+		case "deny":
+			return "denied-chat"
+		}
 		return "chat"
 	case "ack":
 		return "ack"
@@ -207,7 +218,7 @@ func c21Blame(items []c21Item, from, to int, protocol int) string {
 		for k := from + 1; k <= to && k <= len(items); k++ {
 			cl := c21Class(items[k-1], protocol)
 			switch cl {
-			case "rewritten-command", "rewritten-signed-command-1.20.5+", "command-error", "consumed-with-argument-signatures":
+			case "rewritten-command", "rewritten-signed-command-1.20.5+", "command-error", "consumed-with-argument-signatures", "rewritten-chat", "denied-chat":
 				return cl
 			case "consumed-command", "unsigned-command":
 				if pass == 1 {
@@ -331,6 +342,19 @@ func c21Run(c c21Case) verifkit.Result {
 		case "rewrite-forward":
 			e.SetCommand(c21Rewritten(i))
 			e.SetForward(true)
+		}
+	})
+
+	event.Subscribe(mgr, 0, func(e *PlayerChatEvent) {
+		i, ok := byLine[e.Original()]
+		if !ok || c.Items[i].Kind != "chat" {
+			return
+		}
+		switch c.Items[i].Outcome {
+		case "rewrite":
+			e.SetMessage(c21Rewritten(i))
+		case "deny":
+			e.SetAllowed(false)
 		}
 	})
 
@@ -461,7 +485,7 @@ func c21Run(c c21Case) verifkit.Result {
 	for _, it := range c.Items {
 		classes[c21Class(it, c.Protocol)] = true
 	}
-	for cl := range map[string]bool{"rewritten-command": true, "rewritten-signed-command-1.20.5+": true, "command-error": true, "consumed-with-argument-signatures": true, "consumed-command": true, "unsigned-command": true} {
+	for cl := range map[string]bool{"rewritten-command": true, "rewritten-signed-command-1.20.5+": true, "command-error": true, "consumed-with-argument-signatures": true, "consumed-command": true, "unsigned-command": true, "rewritten-chat": true, "denied-chat": true} {
 		if classes[cl] {
 			labels = append(labels, "has:"+cl)
 		}
@@ -477,7 +501,7 @@ func c21Run(c c21Case) verifkit.Result {
 	}
 	rewrittenOf := map[string]int{}
 	for i, it := range c.Items {
-		if c21IsCmd(it.Kind) && (it.Outcome == "rewrite" || it.Outcome == "rewrite-forward") {
+		if (c21IsCmd(it.Kind) || it.Kind == "chat") && (it.Outcome == "rewrite" || it.Outcome == "rewrite-forward") {
 			rewrittenOf[c21Rewritten(i)] = i
 		}
 	}
@@ -671,6 +695,7 @@ func c21Gen(t *rapid.T) c21Case {
 		switch it.Kind {
 		case "chat":
 			it.Offset = genOffset("offset", false)
+			it.Outcome = rapid.SampledFrom([]string{"", "", "", "", "rewrite", "deny"}).Draw(t, "chatOutcome")
 		case "ack":
 			it.Offset = genOffset("ackOffset", true)
 		case "scmd", "ucmd":
@@ -750,6 +775,6 @@ func c21Gen(t *rapid.T) c21Case {
 
 func TestVerif_C21(t *testing.T) {
 	verifkit.Check(t, "C21", "history",
-		"client histories of 1..14 packets over {signed chat(offset), signed command(offset, with/without argument signatures), unsigned command (1.20.5+), ack(offset incl. 0,19..21,39..41,64)} on protocols 1.19.3/1.20.3/1.20.5/1.21.5/1.21.7, command outcome in {unknown=>backend, event forward, event deny, proxy command, proxy command returning an error, event rewrite, rewrite+forward} (30% of histories contain the last three / consumed commands with argument signatures), forceKeyAuthentication on/off; schedule script: proxy-command callbacks block on gates released between later sends, inside later CommandExecuteEvent subscribers, before the send, or only at the end; 25% synchronous histories (drain after every packet) get exact per-packet accounting; verdict from the recorded backend sequence after the future chain's tail completed; non-trivial = a forwarded last-seen packet carried held acknowledgements, or a packet was sent while an earlier command was still executing",
+		"client histories of 1..14 packets over {signed chat(offset; untouched, rewritten or denied by a PlayerChatEvent subscriber), signed command(offset, with/without argument signatures), unsigned command (1.20.5+), ack(offset incl. 0,19..21,39..41,64)} on protocols 1.19.3/1.20.3/1.20.5/1.21.5/1.21.7, command outcome in {unknown=>backend, event forward, event deny, proxy command, proxy command returning an error, event rewrite, rewrite+forward} (30% of histories contain the last three / consumed commands with argument signatures), forceKeyAuthentication on/off; schedule script: proxy-command callbacks block on gates released between later sends, inside later CommandExecuteEvent subscribers, before the send, or only at the end; 25% synchronous histories (drain after every packet) get exact per-packet accounting; verdict from the recorded backend sequence after the future chain's tail completed; non-trivial = a forwarded last-seen packet carried held acknowledgements, or a packet was sent while an earlier command was still executing",
 		c21Gen, c21Run)
 }
